@@ -318,7 +318,7 @@ class ParserEngine(ParserCore, CanParse):
                 break
 
             expression = trim(expression)
-            with suppress(ValueError, SyntaxError):
+            with suppress(ValueError, SyntaxError, TypeError):
                 result = stdlib_ast.literal_eval(expression.strip())
                 assert result is not Undefined
                 continue
